@@ -94,6 +94,21 @@ def run(spec, setup=None, readonly=False, label=None, built=None,
     rec.spec = spec
     rec.built = built if built is not None else problems.build(
         spec, readonly=readonly)
+    if spec.get("prelude_n") and rec.built.options is not None:
+        # the caller's options dict OBJECT served an earlier, unrelated call
+        # (another dimension) before this one; not monitored
+        import contextlib
+        import io
+        import cobyqa
+        with warnings.catch_warnings():
+            warnings.simplefilter("ignore")
+            with contextlib.redirect_stdout(io.StringIO()):
+                try:
+                    cobyqa.minimize(lambda x: float(np.sum((x - 0.3) ** 2)),
+                                    np.zeros(int(spec["prelude_n"])),
+                                    options=rec.built.options)
+                except Exception:  # noqa: BLE001
+                    pass
     r = ctx.Run(label=label)
     rec.run = r
     if setup is not None:
